@@ -305,6 +305,9 @@ func runC09(run *Run, replay string) Spec {
 				h := c09GenHistory(r, layouts["L1"])
 				c09Check(run, h, r)
 				run.Count(jsonStr(h.Requests) + fmt.Sprint(k))
+				for m := 0; m < 10; m++ {
+					c09MinifyCheck(run, subRng(run.Seed, 1_500_000_000+k*10+m), layouts["L1"])
+				}
 			}
 		}()
 	}
